@@ -1194,7 +1194,7 @@ impl<'a> Run<'a> {
         let mut touched: Vec<Nid> = Vec::new();
         let handle_node = |h: u8| self.files[h as usize % NSLOTS].as_ref().map(|f| f.node);
         match op {
-            Op::Write { h, .. } | Op::Truncate { h } | Op::SetTimes { h, .. } | Op::Read { h, .. } | Op::CloseFile { h } => {
+            Op::Write { h, .. } | Op::WriteRetry { h, .. } | Op::Truncate { h } | Op::SetTimes { h, .. } | Op::Read { h, .. } | Op::CloseFile { h } => {
                 if let Some(n) = handle_node(*h) {
                     touched.push(n);
                 }
@@ -1453,7 +1453,15 @@ impl<'a> Run<'a> {
                         *d = None;
                     }
                     if let Some(sess) = self.sess.take() {
+                        // (the write log and the image stay: C14 evaluates them after the history)
+                        let logs = self.dev.with(|d| (std::mem::take(&mut d.wlog), std::mem::take(&mut d.flush_marks)));
+                        let snap = self.dev.snapshot();
                         sess.abandon();
+                        self.dev.with(|d| {
+                            d.store = snap;
+                            d.wlog = logs.0;
+                            d.flush_marks = logs.1;
+                        });
                     }
                     return Ok(true);
                 }
